@@ -144,6 +144,14 @@ def z_predict_cases(tier, rng):
         out.append(("tucker", np.ones(int(np.prod(sx)) + 1, dtype=np.int64), X))
         out.append(("cp", np.ones(sx + (2,), dtype=np.int64)[..., :1].reshape(sx + (1,))[tuple(slice(0, max(1, d - 1)) for d in sx)], X))
         out.append(("cp", np.arange(int(np.prod(sx)) * 2 + 1, dtype=np.int64), X))
+    # size-0 modes: zero samples, an empty per-sample mode, an empty output mode (both sides must agree on value or rejection)
+    for sx, so in (((2,), ()), ((2, 3), (2,)), ((0,), (3,)), ((2, 0), ()), ((2,), (0,)), ((0, 2), (0,)), ((3,), (2, 0)), ((0,), ())):
+        for n in (0, 2):
+            W = np.array([rng.randint(-9, 9) for _ in range(int(np.prod(sx + so)))], dtype=np.int64).reshape(sx + so)
+            X = np.array([rng.randint(-9, 9) for _ in range(n * int(np.prod(sx)))], dtype=np.int64).reshape((n,) + sx)
+            out.append(("cp", W, X))
+            if so == ():
+                out.append(("tucker", W.reshape(-1), X))
     # sample vector without non-sample modes: partial_tensor_to_vec raises
     out.append(("cp", np.ones((2,), dtype=np.int64), np.arange(3, dtype=np.int64)))
     out.append(("tucker", np.ones((2,), dtype=np.int64), np.arange(3, dtype=np.int64)))
@@ -447,6 +455,12 @@ def plsr_cases(p, r):
         if st == "ok":
             cs.append(f"KPlsrPredict {qt(xm)} {qt(ym)} {loads} {qt(r.coef_)} {qt(r.Y_factors[1])} {qt(Xq)} {qt(pr)}")
     cs.append(f"KMean {qt(X)} {qt(xm)}")
+    # score(X, Y) of a matrix-valued target: R2 of the predictions the model computes from the exposed attributes
+    if np.ndim(p["y"]) == 2:
+        st, sc = call(r.score, X.copy(), np.array(p["y"], dtype=np.float64))
+        den = float(np.linalg.norm(np.asarray(p["y"]) - ym) ** 2)
+        if st == "ok" and np.isfinite(sc) and den > 1e-6 and abs(sc) < 1e6:
+            cs.append(f"KPlsrScore {qt(xm)} {qt(ym)} {loads} {qt(r.coef_)} {qt(r.Y_factors[1])} {qt(X)} {qt(p['y'])} {C.q(float(sc))}")
     # the Y branch of transform on the training data
     Y2 = np.asarray(p["y"], dtype=np.float64)
     Y2 = Y2.reshape(-1, 1) if Y2.ndim == 1 else Y2
@@ -726,6 +740,62 @@ def loop_case(p):
         tape = lst(f"({qt(b[0])}, {lst(qt(f) for f in b[1])})" for b in its)
         case = f"KTkLoop {C.nat(N)} {qtol} {C.q(float(p['reg']))} {qt(p['X'])} {qt(p['y'])} {qt(G0)} {lst(qt(f) for f in W0)} {tape} {qt(eW)} {trace}"
     return "ok", case
+
+
+# ----------------------------------------------------------------------------- the ridge blocks on integer data, exactly
+class IntRS(np.random.RandomState):
+    """a RandomState whose randn draws small integers (as floats): integer initial factors for an exact comparison"""
+
+    def randn(self, *size):
+        return self.randint(-2, 3, size=size).astype(np.float64)
+
+
+def ridge_case(rng, kind):
+    """one pass of fit on integer X, y with integer initial factors, reg_W = 1 and an instrumented T.solve that records its arguments
+    (A, B) and answers with small integers: every (A, B) must be the model's phi'phi + I and phi'y of the current blocks, bit for bit"""
+    import tensorly.backend as TB
+    from tensorly.regression.cp_regression import CPRegressor
+    from tensorly.regression.tucker_regression import TuckerRegressor
+    cp = kind == "cp"
+    order = rng.choice([1, 2, 2, 3]) if cp else rng.choice([2, 2, 3])
+    sx = tuple(rng.randint(1 if order > 1 else 2, 3) for _ in range(order))
+    so = rng.choice([(), (), (2,), (3,), (2, 2), (1, 2)]) if cp else ()
+    if order == 1 and so == ():
+        so = (2,)
+    n = rng.randint(2, 4)
+    X = np.array([rng.randint(-3, 3) for _ in range(n * int(np.prod(sx)))], dtype=np.float64).reshape((n,) + sx)
+    y = np.array([rng.randint(-3, 3) for _ in range(n * int(np.prod(so, dtype=int)))], dtype=np.float64).reshape((n,) + so)
+    seed = rng.randint(0, 10 ** 6)
+    ans = np.random.RandomState(seed + 1)
+    rec = []
+    orig = TB.solve
+
+    def solve(A, B):
+        rec.append((np.array(A, copy=True), np.array(B, copy=True)))
+        return ans.randint(-2, 3, size=(np.shape(A)[1],) + tuple(np.shape(B)[1:])).astype(np.float64)
+    if cp:
+        R = rng.randint(1, 2)
+        mk = lambda: CPRegressor(weight_rank=R, reg_W=1, n_iter_max=1, random_state=IntRS(seed), verbose=0)
+    else:
+        ranks = [rng.randint(1, 2) for _ in sx]
+        mk = lambda: TuckerRegressor(weight_ranks=list(ranks), reg_W=1, n_iter_max=1, random_state=IntRS(seed), verbose=0)
+    TB.solve = solve
+    try:
+        st, r = call(lambda: mk().fit(X.copy(), y.copy()))
+    finally:
+        TB.solve = orig
+    if st != "ok":
+        return "fit-raised", None
+    g = IntRS(seed)
+    eAB = lst(f"({zt(A)}, {zt(B)})" for A, B in rec)
+    if cp:
+        W0 = [g.randn(d, R) for d in sx] + [g.randn(d, R) for d in so]
+        newW = [np.asarray(f) for f in r.cp_weight_[1]]
+        return "ok", f"KRidgeCPZ {C.nat(R)} {C.nat_list(so)} {zt(X)} {zt(y)} {lst(zt(f) for f in W0)} {lst(zt(f) for f in newW)} {eAB}"
+    G0 = g.randn(*ranks)
+    W0 = [g.randn(d, q) for d, q in zip(sx, ranks)]
+    newW = [np.asarray(f) for f in r.tucker_weight_[1]]
+    return "ok", f"KRidgeTKZ {zt(X)} {zt(y)} {zt(G0)} {lst(zt(f) for f in W0)} {lst(zt(f) for f in newW)} {eAB}"
 
 
 # ----------------------------------------------------------------------------- one object under a sequence of calls
@@ -1880,6 +1950,20 @@ def run(chk):
             meta.append({"kind": p["kind"], "case": c2.split(" ", 1)[0] + " (two-fit: " + ("permuted" if c2.startswith("KPlsrFitPerm") else "shifted") + " run)",
                          "X_shape": list(p["X"].shape), "y_shape": list(np.shape(p["y"])), "params": {k: p[k] for k in ("ncomp", "n_iter", "tol")}, "problem": describe(p)})
             chk.count(n=1); chk.hist("case", "KPlsrFitPerm" if c2.startswith("KPlsrFitPerm") else "KPlsrFit(shifted run)")
+    # the ridge blocks on integer data: exact (A, B) of every T.solve call of one pass
+    for k in range(16 if chk.tier == "quick" else 120):
+        kind = "cp" if k % 2 == 0 else "tucker"
+        try:
+            status, c = ridge_case(rng, kind)
+        except Skip:
+            status, c = "timeout-skipped", None
+        chk.hist("fit_status_ridge_" + kind, status)
+        if c is None:
+            skipped += 1
+            continue
+        cases.append(f"({len(cases)}%nat, {c})")
+        meta.append({"kind": "ridge_" + kind, "case": c.split(" ", 1)[0], "literal": c[:600]})
+        chk.count(key=("ridge", kind, c[:80]), nontrivial=True); chk.hist("case", c.split(" ", 1)[0])
     # one object under sequences of calls (predict / transform before fit, raising fits, refits, set_params in between)
     for p in [q for q in corpus if q.get("kind") in ("reg_seq", "plsr_seq")] + seq_problems(chk.tier, rng):
         try:
@@ -1937,7 +2021,14 @@ def run(chk):
         if tried >= 4 and 2 * h.get("ok", 0) < tried:
             chk.broken.append({"what": f"correspondence corr:C19 not exercised: only {h.get('ok', 0)} of {tried} well-posed {kind} problems gave a finite, well-conditioned fit",
                                "detail": h})
-    failing, n_eval, broken = C.run_case_shards("C19", HEADER, "case", cases, shard=(24 if chk.tier == "quick" else 40), timeout=3000)
+    # the expensive cases (whole fits, sequences of fits) in small shards of their own, the cheap ones in larger shards
+    HEAVY = ("KPlsrSeq", "KRegSeqZ", "KRegSeq", "KCpLoop", "KTkLoop", "KPlsrFitConv")
+    ctor = lambda c: c.split(", ", 1)[1].split(" ", 1)[0]
+    heavy = [c for c in cases if ctor(c) in HEAVY]
+    light = [c for c in cases if ctor(c) not in HEAVY]
+    failing, n_eval, broken = C.run_case_shards("C19", HEADER, "case", heavy, shard=(4 if chk.tier == "quick" else 5), timeout=3000, tag="heavy")
+    f2, n2, b2 = C.run_case_shards("C19", HEADER, "case", light, shard=(24 if chk.tier == "quick" else 40), timeout=3000)
+    failing |= f2; n_eval += n2; broken = list(broken) + list(b2)
     chk.checker_cmds.append("coqc (vm_compute) on generated build/cases/C19/*.v: Corr.C19.failing")
     chk.cov["traces_validated_against_impl"] = n_eval
     chk.cov["skipped_ill_conditioned_or_failed_fits"] = skipped
